@@ -31,6 +31,9 @@ else:
     RP, VD = '/repo', '/verif'
     rc, o = sh('git -C /repo status --porcelain')
     assert o.strip() == '', 'repo dirty: ' + o
+if meta.get('obsolete_since'):
+    print(seed, 'obsolete since', meta['obsolete_since'], '(see meta.json history)')
+    sys.exit(0)
 rc, o = sh('git -C %s apply %s' % (RP, os.path.join(dst, 'patch.diff')))
 assert rc == 0, o
 results = meta.get('checks_against_change', {})
